@@ -120,6 +120,72 @@ fn gen_string_literal(rng: &mut Rng) -> String {
     s
 }
 
+
+// ---- deterministic boundary families (identical for every seed) ---------------------------------------------
+/// texts for the compile + diagnostics oracle: error on lines 1..8 (the snippet context window switches at line 6),
+/// at end of input with / without final newline, after multi-byte characters, each with LF, CRLF and CR
+fn fam_edge() -> Vec<(String, String)> {
+    let mut v: Vec<(String, String)> = vec![];
+    for (eol_name, eol) in [("lf", "\n"), ("crlf", "\r\n"), ("cr", "\r"), ("lfcr", "\n\r")] {
+        for line in [1usize, 2, 5, 6, 7, 8, 12] {
+            for (bad_name, bad) in [("lexer_char", "@"), ("lexer_multibyte", "é"), ("lexer_non_bmp", "😀x"), ("parser", "Tuple("), ("unterminated_string", "\"abc"), ("bad_int", "256u8"), ("generator", "CALL_METHOD Address(\"x\") \"m\";")] {
+                let mut t = String::new();
+                for k in 1..line { t.push_str(&format!("DROP_ALL_PROOFS; # é line {}{}", k, eol)); }
+                t.push_str(bad);
+                v.push((format!("edge_{}_{}_line{}_eof", eol_name, bad_name, line), t.clone()));
+                t.push_str(eol); t.push_str("DROP_ALL_PROOFS;"); t.push_str(eol);
+                v.push((format!("edge_{}_{}_line{}_more_after", eol_name, bad_name, line), t));
+            }
+        }
+    }
+    for (c, t) in [("edge_empty", ""), ("edge_only_newline", "\n"), ("edge_only_cr", "\r"), ("edge_only_crlf", "\r\n"), ("edge_only_comment", "# é"), ("edge_comment_crlf", "# x\r\n"),
+        ("edge_multibyte_last_char", "DROP_ALL_PROOFS; é"), ("edge_multibyte_in_string_eof", "CALL_METHOD \"é"), ("edge_non_bmp_last_char", "DROP_ALL_PROOFS;😀"),
+        ("edge_eq_then_multibyte", "=é"), ("edge_eq_eof", "="), ("edge_minus_eof", "-"), ("edge_digit_eof", "1"), ("edge_digit_multibyte", "1é"), ("edge_escape_u_multibyte", "\"\\ué\""),
+        ("edge_surrogate_then_multibyte", "\"\\ud800é\""), ("edge_string_trailing_newline", "\"abc\n"), ("edge_string_trailing_crlf", "\"abc\r\n"), ("edge_tab_indent_error", "\t\t@"),
+        ("edge_nesting_20", &("Tuple(".repeat(20) + &")".repeat(20))), ("edge_nesting_21", &("Tuple(".repeat(21) + &")".repeat(21)))] { v.push((c.to_string(), t.to_string())); }
+    v
+}
+/// texts for the whole-lexer correspondence
+fn fam_lex() -> Vec<(String, String)> {
+    let mut v: Vec<(String, String)> = vec![];
+    for (k, f) in FRAGS.iter().enumerate() { let t = f.replace("\\n", "\n").replace("\\r", "\r").replace("\\t", "\t");
+        v.push((format!("lex_frag_{}_alone", k), t.clone())); v.push((format!("lex_frag_{}_then_more", k), format!("{} {}", t, t))); }
+    for (ty, bits, signed) in [("i8", 8u32, true), ("i16", 16, true), ("i32", 32, true), ("i64", 64, true), ("i128", 128, true), ("u8", 8, false), ("u16", 16, false), ("u32", 32, false), ("u64", 64, false), ("u128", 128, false)] {
+        use num_bigint::BigInt;
+        let one = BigInt::from(1); let (min, max): (BigInt, BigInt) = if signed { (-(one.clone() << (bits - 1)), (one.clone() << (bits - 1)) - BigInt::from(1)) } else { (BigInt::from(0), (one.clone() << bits) - BigInt::from(1)) };
+        for (c, x) in [("min", min.clone()), ("min_m1", min.clone() - BigInt::from(1)), ("max", max.clone()), ("max_p1", max.clone() + BigInt::from(1)), ("zero", BigInt::from(0)), ("m1", BigInt::from(-1))] {
+            v.push((format!("lex_int_{}_{}", ty, c), format!("{}{} ", x, ty))); }
+        v.push((format!("lex_int_{}_neg_zero", ty), format!("-0{} ", ty)));
+        v.push((format!("lex_int_{}_at_eof", ty), format!("7{}", ty)));
+        v.push((format!("lex_int_{}_leading_zero", ty), format!("07{} ", ty)));
+    }
+    for (c, t) in [("lex_multibyte_last", "é"), ("lex_multibyte_after_token", "( é"), ("lex_non_bmp_last", "😀"), ("lex_multibyte_in_ident_pos", "abcé"), ("lex_multibyte_after_digit", "12é"), ("lex_multibyte_after_type", "1u8é"),
+        ("lex_multibyte_in_type", "1ué"), ("lex_string_multibyte_last", "\"é"), ("lex_string_multibyte_closed", "\"é😀\""), ("lex_comment_multibyte_eof", "# é😀"), ("lex_comment_then_token", "# c\n;"), ("lex_hash_in_string", "\"#\""),
+        ("lex_comment_cr_only", "# c\r;"), ("lex_eq_gt", "=>"), ("lex_eq_space_gt", "= >"), ("lex_eq_eof", "="), ("lex_all_punct", "(),;<>=>"), ("lex_bad_punct_brace", "{"), ("lex_bad_punct_amp", "&"), ("lex_ident_colon", "A::b_9:"),
+        ("lex_ident_true_prefix", "truer true falsey false"), ("lex_underscore_start", "_a"), ("lex_digit_then_ident", "1u8x"), ("lex_minus_ident", "-x"), ("lex_minus_minus", "--1u8"), ("lex_type_i1_eof", "1i1"), ("lex_type_i12_eof", "1i12"), ("lex_type_i12x", "1i12x"),
+        ("lex_type_u6_eof", "1u6"), ("lex_type_u3x", "1u3x"), ("lex_type_ix", "1ix"), ("lex_type_x", "1x"), ("lex_digits_eof", "123"), ("lex_zero_digits", "00u8"), ("lex_ws_all", " \t\r\n;"), ("lex_empty", ""), ("lex_only_ws", " \t\r\n")] {
+        v.push((c.to_string(), t.to_string())); }
+    v
+}
+/// string literals for the string-lexer correspondence
+fn fam_str() -> Vec<(String, String)> {
+    let mut v: Vec<(String, String)> = vec![];
+    for (c, e) in [("quote", "\\\""), ("backslash", "\\\\"), ("slash", "\\/"), ("b", "\\b"), ("f", "\\f"), ("n", "\\n"), ("r", "\\r"), ("t", "\\t"), ("bad_x", "\\x"), ("bad_U", "\\U0041"), ("bad_multibyte", "\\é"), ("bad_0", "\\0")] {
+        v.push((format!("strlit_escape_{}", c), format!("\"{}\"", e))); v.push((format!("strlit_escape_{}_eof", c), format!("\"{}", e))); }
+    v.push(("strlit_backslash_eof".into(), "\"\\".into()));
+    for n in 0..5usize { let hex = &"00e9"[..n.min(4)];
+        v.push((format!("strlit_u_{}digits_eof", n), format!("\"\\u{}", hex))); v.push((format!("strlit_u_{}digits_quote", n), format!("\"\\u{}\"", hex)));
+        v.push((format!("strlit_u_{}digits_nonhex", n), format!("\"\\u{}g\"", hex))); v.push((format!("strlit_u_{}digits_multibyte", n), format!("\"\\u{}é\"", hex))); }
+    for u in ["0000", "0041", "007f", "d7ff", "D7FF", "d800", "dbff", "dc00", "dfff", "e000", "ffff", "FFFF", "aBcD"] {
+        v.push((format!("strlit_unit_{}", u), format!("\"\\u{}\"", u)));
+        for lo in ["0000", "0041", "d7ff", "d800", "dbff", "dc00", "dfff", "e000", "ffff"] { if u.starts_with('d') && u != "d7ff" { v.push((format!("strlit_pair_{}_{}", u, lo), format!("\"\\u{}\\u{}\"", u, lo))); } }
+    }
+    for (c, t) in [("strlit_hi_then_eof", "\"\\ud800"), ("strlit_hi_then_quote", "\"\\ud800\""), ("strlit_hi_then_backslash_eof", "\"\\ud800\\"), ("strlit_hi_then_backslash_n", "\"\\ud800\\n\""),
+        ("strlit_hi_then_u_short", "\"\\ud800\\udc0\""), ("strlit_hi_then_u_nonhex", "\"\\ud800\\udc0g\""), ("strlit_empty", "\"\""), ("strlit_unterminated", "\"abc"), ("strlit_only_quote", "\""),
+        ("strlit_raw_newline", "\"a\nb\""), ("strlit_raw_crlf", "\"a\r\nb\""), ("strlit_raw_multibyte", "\"é漢😀\""), ("strlit_raw_control", "\"\u{0}\u{7f}\"")] { v.push((c.to_string(), t.to_string())); }
+    v
+}
+
 fn main() {
     let args = Args::parse();
     let mut report = Report::new(
@@ -134,12 +200,21 @@ fn main() {
     let net = NetworkDefinition::simulator();
     let temps = templates();
     let kinds = [ManifestKind::V1, ManifestKind::SystemV1, ManifestKind::V2, ManifestKind::SubintentV2];
-    for i in 0..args.cases {
+    let (fedge, flex, fstr) = (fam_edge(), fam_lex(), fam_str());
+    let fam_len = fedge.len() + flex.len() + fstr.len();
+    let (mut lex_ix, mut str_ix) = (0usize, 0usize);
+    let mut fam_classes: Vec<String> = vec![];
+    let mut edge_ix = 0usize;
+    for i in 0..args.cases.max(fam_len) {
         let mut rng = root.fork(i as u64);
-        if i % 3 != 2 {
+        // family phase: rotate over the families that still have items; afterwards the random streams
+        let remaining = [edge_ix < fedge.len(), lex_ix < flex.len(), str_ix < fstr.len()];
+        let fam_kind: Option<usize> = (0..3).map(|k| (i + k) % 3).find(|k| remaining[*k]);
+        let is_a = match fam_kind { Some(k) => k == 0, None => i % 3 != 2 };
+        let is_b2 = match fam_kind { Some(k) => k == 1, None => (i / 3) % 2 == 1 };
+        if is_a {
             // ---- stream A ----
-            const EDGE: &[&str] = &["\"abc\n", "\"abc\r\n", "\"abc", "1\n", "1", "-", "=", "\r\n\r\n@", "\n\n\n\n\n\n\n\n@", "\r\n\r\n\r\n\r\n\r\n\r\n\r\n\r\n@", "", "\n", "\r", "CALL_METHOD\n", "CALL_METHOD\r\n", "é\n@", "\"é\n", "😀\r\n😀\r\n\"", "#c\n\"\n\n", "TAKE_ALL_FROM_WORKTOP\n\n\n\n\n\n\n"];
-            let (text, tags) = if i / 3 < EDGE.len() { (EDGE[i / 3].to_string(), vec!["edge"]) } else if rng.chance(1, 6) {
+            let (text, tags) = if fam_kind == Some(0) && edge_ix < fedge.len() { let (c, t) = &fedge[edge_ix]; edge_ix += 1; report.count(c); fam_classes.push(c.clone()); (t.clone(), vec!["edge"]) } else if rng.chance(1, 6) {
                 let n = rng.below(40); let mut s = String::new();
                 for _ in 0..n { if rng.bool() { s.push_str(*rng.pick(ODD)); } else { s.push((0x20 + rng.below(0x5f) as u8) as char); } if rng.chance(1, 5) { s.push(' '); } }
                 (s, vec!["arbitrary"])
@@ -178,9 +253,11 @@ fn main() {
             }
             cw.push("CNone".to_string());
         } else {
-            if (i / 3) % 2 == 1 {
+            if is_b2 {
                 // ---- stream B2: whole-lexer correspondence on a short text ----
-                let text: String = if rng.bool() {
+                let fam_l = if fam_kind == Some(1) { let x = flex.get(lex_ix); lex_ix += 1; x } else { None };
+                if let Some((c, _)) = fam_l { report.count(c); fam_classes.push(c.clone()); }
+                let text: String = if let Some((_, t)) = fam_l { t.clone() } else if rng.bool() {
                     let n = rng.range(1, 9); let mut t = String::new();
                     for _ in 0..n { t.push_str(&rng.pick(FRAGS).replace("\\n", "\n").replace("\\r", "\r").replace("\\t", "\t")); if rng.chance(3, 4) { t.push_str(*rng.pick(&[" ", "\n", "\r\n", "\t", "  "])); } }
                     t
@@ -207,7 +284,8 @@ fn main() {
                 continue;
             }
             // ---- stream B: one string literal ----
-            let lit = gen_string_literal(&mut rng);
+            let mut lit = gen_string_literal(&mut rng);
+            if fam_kind == Some(2) { if let Some((c, t)) = fstr.get(str_ix) { lit = t.clone(); report.count(c); fam_classes.push(c.clone()); } str_ix += 1; }
             let lit2 = lit.clone();
             let r = catch(move || tokenize(&lit2));
             report.case(&lit, lit.contains('\\'));
@@ -225,6 +303,7 @@ fn main() {
             cw.push(format!("CString {} {}", chars_coq(&lit), out));
         }
     }
+    for c in &fam_classes { report.floor(c, 1); }
     let n = args.cases as u64;
     report.floor("lexer_error", n / 10);
     report.floor("parser_error", n / 10);
